@@ -142,7 +142,7 @@ def _inline_pool():
     return types.SimpleNamespace(Pool=Pool, cpu_count=lambda: 1)
 
 
-def transform_lib(lib_text, client_text, path, passes):
+def transform_lib(lib_text, client_text, path, passes, layout="flat"):
     """The real preserve mechanism on files in a temporary directory (api: names -> format_code; cli: main.main)."""
     import contextlib
     import importlib
@@ -154,7 +154,21 @@ def transform_lib(lib_text, client_text, path, passes):
 
     main = importlib.import_module("pyrefact.main")
     with tempfile.TemporaryDirectory() as d:
-        lp, cp = os.path.join(d, LIBNAME + ".py"), os.path.join(d, "client.py")
+        # file layouts: flat (one folder); twotrees (library src/pkg/<lib>.py, client tests/pkg/<lib>.py: same tail in
+        # two trees); twoclients (a second preserved client with the same dir/file tail as the first, using nothing)
+        extra_clients = []
+        if layout == "flat":
+            lp, cp = os.path.join(d, LIBNAME + ".py"), os.path.join(d, "client.py")
+        elif layout == "twotrees":
+            lp, cp = os.path.join(d, "src", "pkg", LIBNAME + ".py"), os.path.join(d, "tests", "pkg", LIBNAME + ".py")
+        else:
+            lp, cp = os.path.join(d, "lib", LIBNAME + ".py"), os.path.join(d, "svc_a", "checks", "smoke.py")
+            extra_clients = [os.path.join(d, "svc_b", "checks", "smoke.py")]
+        for pth in [lp, cp] + extra_clients:
+            os.makedirs(os.path.dirname(pth), exist_ok=True)
+        for pth in extra_clients:
+            with open(pth, "w") as f:
+                f.write("print('nothing used here')\n")
         with open(lp, "w") as f:
             f.write(lib_text)
         with open(cp, "w") as f:
@@ -169,14 +183,14 @@ def transform_lib(lib_text, client_text, path, passes):
         main.mp = _inline_pool()
         try:
             with contextlib.redirect_stdout(io.StringIO()), contextlib.redirect_stderr(io.StringIO()):
-                main.main([lp, "--preserve", cp, "--n_cores", "1"])
+                main.main([lp, "--preserve", cp, *extra_clients, "--n_cores", "1"])
         finally:
             main.mp = saved
         with open(lp) as f:
             return f.read()
 
 
-def ob_client(chunks, picks, form, path, passes):
+def ob_client(chunks, picks, form, path, passes, layout="flat"):
     from vk import instrument, sym
 
     lib_text = "\n\n".join(CHUNKS[c] for c in chunks)
@@ -192,13 +206,13 @@ def ob_client(chunks, picks, form, path, passes):
                 eng.require(eng.var("c%d" % m) == m)
         try:
             if path == "api":
-                out = transform_lib(lib_text, client, "api", passes)
+                out = transform_lib(lib_text, client, "api", passes, layout)
             else:
                 # concrete run of the CLI (no engine path during the worker call: markers stay ordinary literals)
                 prev, sym.Engine.cur = sym.Engine.cur, None
                 try:
                     instrument.reset_caches()
-                    out = transform_lib(lib_text, client, "cli", passes)
+                    out = transform_lib(lib_text, client, "cli", passes, layout)
                 finally:
                     sym.Engine.cur = prev
                     instrument.reset_caches()
@@ -259,9 +273,17 @@ def obligations(tier, seed):
         variants = [("api", 1), ("api", 2)]
         if tier != "quick" or len(chunks) == 1 or rnd.random() < 0.25:
             variants.append(("cli", 1))
+        lays = {}
         for path, passes in variants:
-            oid = "client/%s%d/%s/%s/%s" % (path, passes, form, "+".join(chunks), "".join(map(str, picks)))
-            obs.append(Obligation(oid, ob_client, {"chunks": chunks, "picks": picks, "form": form, "path": path, "passes": passes},
+            lays[(path, passes)] = "flat"
+        if ("cli", 1) in lays:
+            variants += [("cli:twotrees", 1), ("cli:twoclients", 1)]
+        for path, passes in variants:
+            layout = "flat"
+            if ":" in path:
+                path, layout = path.split(":")
+            oid = "client/%s%d%s/%s/%s/%s" % (path, passes, "" if layout == "flat" else "-" + layout, form, "+".join(chunks), "".join(map(str, picks)))
+            obs.append(Obligation(oid, ob_client, {"chunks": chunks, "picks": picks, "form": form, "path": path, "passes": passes, "layout": layout},
                                   hard_timeout=260, sample={"library_chunks": chunks, "client": make_client(chunks, picks, form)[-200:],
                                                             "path": path, "passes": passes}))
     return obs
@@ -285,7 +307,7 @@ def replay(case):
     p = case["params"]
     lib_text = symtv.concrete_program("\n\n".join(CHUNKS[c] for c in p["chunks"]), case["model"])
     client = symtv.concrete_program(make_client(p["chunks"], p["picks"], p["form"]), case["model"])
-    out = transform_lib(lib_text, client, p["path"], p["passes"])
+    out = transform_lib(lib_text, client, p["path"], p["passes"], p.get("layout", "flat"))
 
     def run(lib):
         with tempfile.TemporaryDirectory() as d:
